@@ -235,9 +235,11 @@ pub fn gen_train_types(rng: &mut Rng, max_cars: u32, max_types: usize) -> TrainS
     }
     let n_units = rng.usize(2, 6);
     let consist: Vec<ConUnit> = (0..n_units)
-        .map(|_| match rng.below(10) {
+        .map(|_| match rng.below(11) {
             0..=5 => ConUnit::Conv,
             6 | 7 => ConUnit::Bel,
+            // the shipped hybrid unit (engine + battery on one locomotive)
+            10 => ConUnit::Gen(pt::LocoSpec { kind: pt::KindSpec::Hybrid, aux_offset: 0.0, aux_coeff: 0.0 }),
             _ => {
                 // generated ratings / engine map / battery, but the shipped (flat) generator and drivetrain maps:
                 // with curved maps the published consist limit is not achievable and the train controller,
@@ -540,6 +542,9 @@ pub struct Traj {
     /// states[0] = before the first step, states[k] = after step k
     pub states: Vec<TrainState>,
     pub con: Vec<ConsistState>,
+    /// per recorded step: sums over the locomotives of (energy_out, fuel energy, battery chemical energy); empty
+    /// when the trajectory was read back from histories
+    pub loco_sums: Vec<(f64, f64, f64)>,
     /// path length (end of authority) known when step k was executed
     pub auth_end: Vec<f64>,
     /// route prefix delivered when step k was executed
@@ -765,7 +770,7 @@ fn check_backward_sweep(ctx: &mut Ctx, state: &TrainState, train_res: &TrainRes,
     }
     ctx.hit("probe.res.backward_sweep");
     let n0 = ctx.viol.len();
-    let synth = Traj { states, con: vec![], auth_end: vec![], delivered: vec![] };
+    let synth = Traj { states, con: vec![], loco_sums: vec![], auth_end: vec![], delivered: vec![] };
     check_resistance(ctx, &synth, links, route_delivered, r);
     for v in ctx.viol.iter_mut().skip(n0) {
         if v.property == "C07" {
@@ -776,10 +781,60 @@ fn check_backward_sweep(ctx: &mut Ctx, state: &TrainState, train_res: &TrainRes,
     }
 }
 
+/// sums over the locomotives of (energy_out, fuel energy, battery chemical energy) - every unit kind that has
+/// an engine contributes its fuel, every unit kind that has a battery its chemical energy
+fn loco_sums(con: &Consist) -> (f64, f64, f64) {
+    let mut s = (0.0, 0.0, 0.0);
+    for l in &con.loco_vec {
+        s.0 += l.state.energy_out.value;
+        match &l.loco_type {
+            PowertrainType::ConventionalLoco(c) => s.1 += c.fc.state.energy_fuel.value,
+            PowertrainType::BatteryElectricLoco(b) => s.2 += b.res.state.energy_out_chemical.value,
+            PowertrainType::HybridLoco(h) => {
+                s.1 += h.fc.state.energy_fuel.value;
+                s.2 += h.res.state.energy_out_chemical.value;
+            }
+            _ => {}
+        }
+    }
+    s
+}
+/// the same sums read from the units' saved histories at entry k (missing entries count as NaN -> reported)
+fn loco_sums_at(con: &Consist, k: usize) -> (f64, f64, f64) {
+    let mut s = (0.0, 0.0, 0.0);
+    let at = |v: &Vec<altrios_core::si::Energy>| v.get(k).map(|x| x.value).unwrap_or(f64::NAN);
+    for l in &con.loco_vec {
+        s.0 += at(&l.history.energy_out);
+        match &l.loco_type {
+            PowertrainType::ConventionalLoco(c) => s.1 += at(&c.fc.history.energy_fuel),
+            PowertrainType::BatteryElectricLoco(b) => s.2 += at(&b.res.history.energy_out_chemical),
+            PowertrainType::HybridLoco(h) => {
+                s.1 += at(&h.fc.history.energy_fuel);
+                s.2 += at(&h.res.history.energy_out_chemical);
+            }
+            _ => {}
+        }
+    }
+    s
+}
+
 fn check_levels(ctx: &mut Ctx, tr: &Traj) {
     for k in 1..tr.states.len() {
         ctx.event = k;
         let (t, c) = (&tr.states[k], &tr.con[k]);
+        // consist level vs sums over locomotives, at every recorded step
+        if let Some((out, fuel, res)) = tr.loco_sums.get(k).copied() {
+            let es = c.energy_out_pos.value.max(c.energy_out_neg.value).max(c.energy_fuel.value.abs()).max(c.energy_res.value.abs()).max(1e3);
+            for (name, a, b) in [
+                ("consist.energy_out = sum(loco.energy_out)", c.energy_out.value, out),
+                ("consist.energy_fuel = sum(fc.energy_fuel)", c.energy_fuel.value, fuel),
+                ("consist.energy_res = sum(res.energy_out_chemical)", c.energy_res.value, res),
+            ] {
+                if !close(a, b, 1e-9, 1e-6, es) {
+                    ctx.violate("C11", "levels", name, format!("step {k}: consist {a} vs sum over locomotives {b} (diff {:e})", a - b));
+                }
+            }
+        }
         let sc = t.pwr_whl_out.value.abs().max(1e3);
         if !close(t.pwr_whl_out.value, c.pwr_out.value, 1e-8, 1e-6, sc) {
             ctx.violate("C11", "levels", "train wheel power = consist delivered power", format!("step {k}: train pwr_whl_out {} vs consist pwr_out {}", t.pwr_whl_out.value, c.pwr_out.value));
@@ -804,8 +859,7 @@ fn check_totals(ctx: &mut Ctx, con: &Consist, st: &TrainState, sim_days: Option<
     // consist vs sums over locomotives
     let es = con.state.energy_out_pos.value.max(con.state.energy_out_neg.value).max(con.state.energy_fuel.value.abs()).max(1e3);
     let sum_out: f64 = con.loco_vec.iter().map(|l| l.state.energy_out.value).sum();
-    let sum_fuel: f64 = con.loco_vec.iter().map(|l| match &l.loco_type { PowertrainType::ConventionalLoco(c) => c.fc.state.energy_fuel.value, _ => 0.0 }).sum();
-    let sum_res: f64 = con.loco_vec.iter().map(|l| match &l.loco_type { PowertrainType::BatteryElectricLoco(b) => b.res.state.energy_out_chemical.value, _ => 0.0 }).sum();
+    let (_, sum_fuel, sum_res) = loco_sums(con);
     for (name, a, b) in [
         ("consist.energy_out = sum(loco.energy_out)", con.state.energy_out.value, sum_out),
         ("consist.energy_fuel = sum(fc.energy_fuel)", con.state.energy_fuel.value, sum_fuel),
@@ -1054,7 +1108,7 @@ pub fn execute(case: &Case, ctx: &mut Ctx) {
                 ctx.violate("C20", "mass_algebra", "train static mass = cars (or override) + consist", format!("mass_static {} vs {} (towed {} + consist {consist_mass})", sim.state.mass_static.value, r.mass_static, r.towed));
             }
             let con_init = sim.loco_con.state;
-            let mut tr = Traj { states: vec![sim.state], con: vec![sim.loco_con.state], auth_end: vec![0.0], delivered: vec![route.len()] };
+            let mut tr = Traj { states: vec![sim.state], con: vec![sim.loco_con.state], loco_sums: vec![loco_sums(&sim.loco_con)], auth_end: vec![0.0], delivered: vec![route.len()] };
             let path_len: f64 = route.iter().map(|l| links[*l].length.value).sum();
             ctx.layer = "train-stepping";
             let mut err = None;
@@ -1065,6 +1119,7 @@ pub fn execute(case: &Case, ctx: &mut Ctx) {
                 if case.save_interval == Some(1) {
                     tr.states = sim.history.state_vec();
                     tr.con = sim.loco_con.history.state_vec();
+                    tr.loco_sums = (0..tr.con.len()).map(|k| loco_sums_at(&sim.loco_con, k)).collect();
                     if tr.states.is_empty() || tr.con.len() != tr.states.len() {
                         ctx.violate("C19", "alignment", "history length", format!("after walk(): train history {} entries, consist history {}", tr.states.len(), tr.con.len()));
                         return;
@@ -1110,6 +1165,7 @@ pub fn execute(case: &Case, ctx: &mut Ctx) {
                             al.i += 1;
                             tr.states.push(sim.state);
                             tr.con.push(sim.loco_con.state);
+                            tr.loco_sums.push(loco_sums(&sim.loco_con));
                             tr.auth_end.push(path_len);
                             tr.delivered.push(route.len());
                             ctx.hit("stat.steps");
@@ -1306,7 +1362,7 @@ struct Runner {
 impl Runner {
     fn new(mut sim: SpeedLimitTrainSim, case: &Case, dt: f64) -> Self {
         sim.state.dt = dt * uc::S;
-        let tr = Traj { states: vec![sim.state], con: vec![sim.loco_con.state], auth_end: vec![0.0], delivered: vec![0] };
+        let tr = Traj { states: vec![sim.state], con: vec![sim.loco_con.state], loco_sums: vec![loco_sums(&sim.loco_con)], auth_end: vec![0.0], delivered: vec![0] };
         Runner { sim, tr, al: Align { i: 1, len: 0, interval: case.save_interval }, dt, k: 0, done: 0, ci: 0, ii: 0, arrived: false, terminated: false, budget: 60_000, rest_outside: 0, stuck: false }
     }
     fn align(&self, ctx: &mut Ctx, after: &str) {
@@ -1366,6 +1422,7 @@ impl Runner {
                 self.al.i += 1;
                 self.tr.states.push(self.sim.state);
                 self.tr.con.push(self.sim.loco_con.state);
+                self.tr.loco_sums.push(loco_sums(&self.sim.loco_con));
                 self.tr.auth_end.push(end);
                 self.tr.delivered.push(self.done);
                 ctx.sim_s += self.dt;
